@@ -150,9 +150,11 @@ func (m *CPU) Run(app risc.Application) (int, error) {
 		}
 		if flush {
 			// TODO Same checks as in MVP 6.1
-			m.writeBus.Connect(cycle + 1)
 			for _, wu := range m.writeUnits {
 				for !wu.isEmpty() || !m.writeBus.IsEmpty() {
+					// The queue of the bus may be smaller than what the execute units
+					// have buffered
+					m.writeBus.Connect(cycle + 1)
 					cycle++
 					wu.cycle(m.ctx, from)
 				}
